@@ -91,14 +91,26 @@ class Reader:
         # Read lines from the file:
         lines = [line.rstrip() for line in f]
         self.tokens = tokenize(lines)
+        self.lookahead = []
         self.token = self.tokens.__next__()
 
     # Lexical helpers:
     def next_token(self):
         t = self.token
         if t[0] != "eof":
-            self.token = self.tokens.__next__()
+            if self.lookahead:
+                self.token = self.lookahead.pop(0)
+            else:
+                self.token = self.tokens.__next__()
         return t
+
+    def peek_second(self):
+        """Type of the token after the current one."""
+        if self.token[0] == "eof":
+            return "eof"
+        if not self.lookahead:
+            self.lookahead.append(self.tokens.__next__())
+        return self.lookahead[0][0]
 
     @property
     def peek(self):
@@ -355,6 +367,18 @@ class Reader:
                 a = self.find_value(a, ty=ty)
                 b = self.find_value(b, ty=ty)
                 ins = ir.Binop(a, op, b, name, ty)
+            elif (
+                self.at_keyword("rol") or self.at_keyword("ror")
+            ) and self.peek_second() == "ID":
+                # Binop with an operator that is spelled as a word:
+                # 'a rol b'. This is tested before the keywords, a value
+                # may be named load, phi, call ...; no other form has an
+                # identifier after 'x rol'.
+                op = self.parse_id()
+                b = self.parse_id()
+                a = self.find_value(a, ty=ty)
+                b = self.find_value(b, ty=ty)
+                ins = ir.Binop(a, op, b, name, ty)
             elif a == "phi":
                 ins = ir.Phi(name, ty)
                 while self.peek == "ID":
@@ -395,13 +419,6 @@ class Reader:
             elif a == "float":
                 # Non-finite float constant: float 'inf', float 'nan'
                 ins = ir.Const(float(self.consume("STRING")[1]), name, ty)
-            elif self.at_keyword("rol") or self.at_keyword("ror"):
-                # Binop with an operator that is spelled as a word
-                op = self.parse_id()
-                b = self.parse_id()
-                a = self.find_value(a, ty=ty)
-                b = self.find_value(b, ty=ty)
-                ins = ir.Binop(a, op, b, name, ty)
             else:
                 raise NotImplementedError(a)
         elif self.peek in ["INT", "FLOAT"]:
